@@ -28,7 +28,7 @@ impl EditState {
             crate::FontMode::Single => {
                 let new_font = BitFont::from_ansi_font_page(page)?;
                 if let Some(font) = self.get_buffer().get_font(0) {
-                    let op = super::undo_operations::SetFont::new(0, font.clone(), new_font);
+                    let op = super::undo_operations::SetFont::new(0, Some(font.clone()), new_font);
                     self.push_undo_action(Box::new(op))
                 } else {
                     Err(anyhow::anyhow!("No font found in buffer."))
@@ -36,12 +36,11 @@ impl EditState {
             }
             crate::FontMode::Unlimited | crate::FontMode::FixedSize => {
                 let new_font = BitFont::from_ansi_font_page(page)?;
-                if let Some(font) = self.get_buffer().get_font(0) {
-                    let op = super::undo_operations::SetFont::new(self.caret.get_font_page(), font.clone(), new_font);
-                    self.push_undo_action(Box::new(op))
-                } else {
-                    Err(anyhow::anyhow!("No font found in buffer."))
-                }
+                // the font that is replaced is the one in the slot that is written (the caret's font page)
+                let font_page = self.caret.get_font_page();
+                let old_font = self.get_buffer().get_font(font_page).cloned();
+                let op = super::undo_operations::SetFont::new(font_page, old_font, new_font);
+                self.push_undo_action(Box::new(op))
             }
         }
     }
@@ -51,7 +50,7 @@ impl EditState {
             crate::FontMode::Sauce | crate::FontMode::Single => {
                 let new_font = BitFont::from_sauce_name(name)?;
                 if let Some(font) = self.get_buffer().get_font(0) {
-                    let op = super::undo_operations::SetFont::new(0, font.clone(), new_font);
+                    let op = super::undo_operations::SetFont::new(0, Some(font.clone()), new_font);
                     self.push_undo_action(Box::new(op))
                 } else {
                     Err(anyhow::anyhow!("No font found in buffer."))
@@ -59,12 +58,11 @@ impl EditState {
             }
             crate::FontMode::Unlimited | crate::FontMode::FixedSize => {
                 let new_font = BitFont::from_sauce_name(name)?;
-                if let Some(font) = self.get_buffer().get_font(0) {
-                    let op = super::undo_operations::SetFont::new(self.caret.get_font_page(), font.clone(), new_font);
-                    self.push_undo_action(Box::new(op))
-                } else {
-                    Err(anyhow::anyhow!("No font found in buffer."))
-                }
+                // the font that is replaced is the one in the slot that is written (the caret's font page)
+                let font_page = self.caret.get_font_page();
+                let old_font = self.get_buffer().get_font(font_page).cloned();
+                let op = super::undo_operations::SetFont::new(font_page, old_font, new_font);
+                self.push_undo_action(Box::new(op))
             }
         }
     }
@@ -92,19 +90,18 @@ impl EditState {
             crate::FontMode::Sauce => Err(anyhow::anyhow!("Not supported for sauce buffers.")),
             crate::FontMode::Single => {
                 if let Some(font) = self.get_buffer().get_font(0) {
-                    let op = super::undo_operations::SetFont::new(0, font.clone(), new_font);
+                    let op = super::undo_operations::SetFont::new(0, Some(font.clone()), new_font);
                     self.push_undo_action(Box::new(op))
                 } else {
                     Err(anyhow::anyhow!("No font found in buffer."))
                 }
             }
             crate::FontMode::Unlimited | crate::FontMode::FixedSize => {
-                if let Some(font) = self.get_buffer().get_font(0) {
-                    let op = super::undo_operations::SetFont::new(self.caret.get_font_page(), font.clone(), new_font);
-                    self.push_undo_action(Box::new(op))
-                } else {
-                    Err(anyhow::anyhow!("No font found in buffer."))
-                }
+                // the font that is replaced is the one in the slot that is written (the caret's font page)
+                let font_page = self.caret.get_font_page();
+                let old_font = self.get_buffer().get_font(font_page).cloned();
+                let op = super::undo_operations::SetFont::new(font_page, old_font, new_font);
+                self.push_undo_action(Box::new(op))
             }
         }
     }
